@@ -167,6 +167,120 @@ theorem patch_wf (isMain : Bool) (items : List Item) (hwf : ∀ it ∈ items, it
       cases items.any (isK .delete) <;> cases items.any (isK .insert) <;> cases items.any (isK .generate) <;>
       cases items.any (isK .main) <;> rfl
 
+theorem cntK_filter_self (k : Mk) (items : List Item) : cntK k (items.filter (fun it => !isK k it)) = 0 := by
+  induction items with
+  | nil => rfl
+  | cons it r ih =>
+    cases h : isK k it with
+    | true => simpa [List.filter_cons, h] using ih
+    | false =>
+      have hf : (it :: r).filter (fun it => !isK k it) = it :: r.filter (fun it => !isK k it) := by
+        simp [List.filter_cons, h]
+      rw [hf, cntK_cons, ih]; simp [h]
+
+theorem cntK_generate_patchExpected (isMain : Bool) (X : List Item) (hwf : ∀ it ∈ X, it.wf = true) :
+    cntK .generate (patchExpected isMain X) = cntK .generate X + cntK .insert X := by
+  induction X with
+  | nil => rfl
+  | cons it r ih =>
+    have hr := ih (fun i hi => hwf i (by simp [hi]))
+    have hg := genBlock_facts.2.1
+    have e : patchExpected isMain (it :: r) = patchExpected isMain [it] ++ patchExpected isMain r := by
+      simp [patchExpected]
+    rw [e, cntK_append, hr, cntK_cons .generate it r, cntK_cons .insert it r]
+    rcases wf_kind (hwf it (by simp)) with h | h | h | h | h | h <;>
+      cases isMain <;>
+      simp [patchExpected, isK, h, hg, cntK] <;> omega
+
+theorem import_arith (isMain : Bool) (nd ni ng nm : Nat) (hm : isMain = true ∨ nm = 0) :
+    applyImports (decide (ng > 0) || decide (nd > 0) || decide (nm > 0))
+      ((if nd > 0 && !decide (ng > 0) then [ImportAct.delete] else [])
+        ++ (if ni > 0 then [ImportAct.add] else [])
+        ++ (if isMain && decide (nm > 0) && !decide (ng + ni > 0) then [ImportAct.delete] else []))
+      = decide (ng + ni > 0) := by
+  rcases hm with hm | hm
+  · subst hm
+    cases nd <;> cases ni <;> cases ng <;> cases nm <;> simp [applyImports] <;> omega
+  · subst hm
+    cases nd <;> cases ni <;> cases ng <;> cases isMain <;> simp [applyImports] <;> omega
+
+/-- **C10 (tracking import).** For every well-formed arrangement in a file whose import state is
+    consistent with its blocks, the import edits recorded by the passes leave the file importing
+    the tracking package iff a tracking block is left in it — so a block written for an insert
+    marker is never left without its import and a file that lost its last block never keeps an
+    unused one (either would stop the project from compiling). -/
+theorem patch_import (isMain imp : Bool) (items : List Item) (hwf : ∀ it ∈ items, it.wf = true)
+    (hc : importConsistent isMain imp items = true) :
+    applyImports imp (patchLines isMain (flatten items)).imports = importExpected isMain items := by
+  obtain ⟨hgw, hgk, hgb, hgf⟩ := genBlock_facts
+  have hrw : ∀ it ∈ [genBlockItem], it.wf = true := by intro it h; simp at h; subst h; exact hgw
+  have hrb : dBU [genBlockItem] = [genBlockItem] := by simp [dBU, hgb]
+  obtain ⟨i1, p1, w1, d1⟩ := pass_step .delete (by decide) [] (by simp) rfl items hwf
+  obtain ⟨i2, p2, w2, d2⟩ := pass_step .insert (by decide) [genBlockItem] hrw hrb i1 w1
+  obtain ⟨i3, p3, w3, d3⟩ := pass_step .generate (by decide) [genBlockItem] hrw hrb i2 w2
+  obtain ⟨i4, p4, w4, d4⟩ := pass_step .main (by decide) [] (by simp) rfl i3 w3
+  obtain ⟨g1, q1, _, _⟩ := pass_step .generate (by decide) [] (by simp) rfl i1 w1
+  obtain ⟨g4, q4, _, _⟩ := pass_step .generate (by decide) [] (by simp) rfl i4 w4
+  rw [flatten_nil] at p1 p4 q1 q4
+  rw [hgf] at p2 p3
+  have hcg : ∀ k, cntK k [genBlockItem] = if k = .generate then 1 else 0 := by
+    intro k; cases k <;> simp [cntK, isK, hgk]
+  have m1 : cntK .generate i1 = cntK .generate items := by
+    rw [← cntK_dBU, d1, cntK_replaceK_other _ _ (by decide) [] rfl, cntK_dBU]
+  have n2 : cntK .insert i1 = cntK .insert items := by
+    rw [← cntK_dBU, d1, cntK_replaceK_other _ _ (by decide) [] rfl, cntK_dBU]
+  have n3 : cntK .generate i2 = cntK .generate items + cntK .insert items := by
+    rw [← cntK_dBU, d2, cntK_replaceK, cntK_filter_ne _ _ (by decide), hcg, d1,
+      cntK_replaceK_other _ _ (by decide) [] rfl, cntK_replaceK_other _ _ (by decide) [] rfl, cntK_dBU, cntK_dBU]
+    simp
+  have m3 : cntK .generate i3 = cntK .generate items + cntK .insert items := by
+    rw [← cntK_dBU, d3, cntK_replaceK, cntK_filter_self, hcg, cntK_dBU, n3]; simp
+  have n4 : cntK .main i3 = cntK .main items := by
+    rw [← cntK_dBU, d3, cntK_replaceK, cntK_filter_ne _ _ (by decide), hcg, d2, cntK_replaceK,
+      cntK_filter_ne _ _ (by decide), hcg, d1, cntK_replaceK_other _ _ (by decide) [] rfl, cntK_dBU]
+    simp
+  have m4 : cntK .generate i4 = cntK .generate items + cntK .insert items := by
+    rw [← cntK_dBU, d4, cntK_replaceK_other _ _ (by decide) [] rfl, cntK_dBU, m3]
+  have hexp : importExpected isMain items = decide (cntK .generate items + cntK .insert items > 0) := by
+    unfold importExpected
+    rw [← cntK_pos_iff, cntK_generate_patchExpected isMain items hwf]
+  have hcons : imp = (decide (cntK .generate items > 0) || decide (cntK .delete items > 0) || decide (cntK .main items > 0))
+      ∧ (isMain = true ∨ cntK .main items = 0) := by
+    unfold importConsistent at hc
+    simp only [Bool.and_eq_true, beq_iff_eq, Bool.or_eq_true, Bool.not_eq_true'] at hc
+    obtain ⟨h1, h2⟩ := hc
+    refine ⟨?_, ?_⟩
+    · rw [h1, any_or2, any_or2]; simp only [cntK_pos_iff]
+    · rcases h2 with h | h
+      · exact Or.inl h
+      · right
+        have := cntK_pos_iff .main items
+        rw [h] at this
+        simpa using this
+  obtain ⟨himp, hmain⟩ := hcons
+  rw [hexp, himp]
+  have hl : (patchLines isMain (flatten items)).imports =
+      (if cntK .delete items > 0 && !decide (cntK .generate items > 0) then [ImportAct.delete] else [])
+      ++ (if cntK .insert items > 0 then [ImportAct.add] else [])
+      ++ (if isMain && decide (cntK .main items > 0) && !decide (cntK .generate items + cntK .insert items > 0)
+          then [ImportAct.delete] else []) := by
+    simp only [patchLines, p1, p2, p3, hasGenerate, q1, m1, n2]
+    cases isMain with
+    | false => simp
+    | true => simp [p4, q4, m4, n4]
+  rw [hl]
+  exact import_arith isMain _ _ _ _ hmain
+
+/-- non-vacuity of `patch_import`: an instrumented file whose every block is delete-marked and
+    which also carries an insert marker (the arrangement a premature "import already present"
+    shortcut gets wrong) -/
+example : importConsistent false true
+    [Item.block .delete Extracted.trackDeleteComment [['y']] Extracted.trackEndComment,
+     Item.ins Extracted.trackInsertComment] = true
+  ∧ importExpected false
+    [Item.block .delete Extracted.trackDeleteComment [['y']] Extracted.trackEndComment,
+     Item.ins Extracted.trackInsertComment] = true := by decide
+
 /-- **without delete/insert markers patch changes nothing**: for **every** text, if no line is an
     insert marker and no delete-start line is followed by an end line, the executor's `changed`
     flag stays false (so `apply` is never entered and nothing is written). -/
